@@ -63,6 +63,12 @@ class Model:
                 if a.kind != "store" or a.idx is not None or a.value_node is None:
                     continue
                 calls = [x for x in A.walk(a.value_node) if x.get("k") == "CallExpr"]
+                if not calls:
+                    # the member receives a local that holds the freshly allocated buffer / the new plan (T* const buf = fft_alloc(..); _m = buf;)
+                    dl_ = A.declref(a.value_node)
+                    loc_ = s.locals.get(dl_["decl"]) if dl_ is not None and dl_.get("decl") in s.locals else None
+                    if loc_ is not None and isinstance(loc_.get("init"), dict) and s.assigned.get(dl_["decl"], 0) == 0:
+                        calls = [x for x in A.walk(loc_["init"]) if x.get("k") == "CallExpr"]
                 for c in calls:
                     cal = c.get("callee") or ""
                     if cal == "fft::prepareFFT":
